@@ -9,6 +9,8 @@ from flax.nnx import spmd as NS
 from flax import nnx, errors
 
 from harness.common import ast_string_literals, qualnames
+from harness import c19_lift as CL
+from flax.core import lift as L_
 from vf.ob import Ob
 from vf.xh import I, B, Reject, pick
 
@@ -327,6 +329,16 @@ def obligations(tier):
                 'without sharding'),
       Ob('nnx_missing_name', nnx_missing_name, dict(k=I(-3, 2)), timeout=60,
          funcs=G),
+      Ob('lift_vmap_scan_metadata', CL.lift_metadata,
+         dict(tr=I(0, 1), ka=I(0, 4), kb=I(0, 4), mode_a=B(), mutable_b=B(),
+              extra_in=B(), reverse=B()), split=('tr', 'ka'), timeout=600,
+         funcs=qualnames(L_.vmap, L_.scan, L_.pack, meta.add_axis, meta.remove_axis,
+                         meta.Partitioned.add_axis, meta.Partitioned.remove_axis),
+         bounds='core lift.vmap / lift.scan, params [2,3] stacked along any of '
+                '0,1,2,-1,-2 (plain / In / Out), stats [5] along 0,1,-1,-2, an extra '
+                'In-only collection, init then apply (mutable or not), stack size 7',
+         assumes=('jax.vmap and flax.core.axes_scan.scan replaced by numpy '
+                  'slice / call / stack reference loops; lift.random.split stubbed',)),
       Ob('logical_rules', logical_rules,
          dict(dp=I(0, len(DPAT) - 1), nr=I(0, 3), l0=lg, l1=lg, l2=lg, m0=ms,
               m1=ms, m2=ms), split=('dp', 'nr', 'l0'), timeout=400, funcs=H,
